@@ -224,9 +224,16 @@ structure PosQ where
   expand : Bool           -- expand_location_to_children
   deriving Repr, Inhabited
 
+/-- "coding" of a member: a gene with a coding transcript; feature collections carry `coding = false`; a
+    collection of variants is never coding -/
+def Child.isCoding (c : Child) : Bool :=
+  match c.kind with
+  | .var => false
+  | _ => c.coding
+
 /-- THE membership clause of the property. `[a,b)` = the child's span, `[s,e)` = the query range. -/
 def keepSpec (codingOnly cw : Bool) (s e : Int) (c : Child) : Bool :=
-  (!codingOnly || c.coding) &&
+  (!codingOnly || c.isCoding) &&
   (if cw then decide (s ≤ c.start ∧ c.stop ≤ e ∧ c.start < c.stop)
    else decide (c.start < e ∧ s < c.stop ∧ c.start < c.stop))
 
